@@ -702,12 +702,28 @@ class Interp:
                             names.add(x.id)
         return names
 
+    def havoc_heap(self, stmts):
+        """Heap locations (by attribute name) stored inside a loop body are loop-carried: forget their values."""
+        names = set()
+        for st in stmts:
+            for n in ast.walk(st):
+                if isinstance(n, (ast.Assign, ast.AugAssign, ast.AnnAssign)):
+                    for t in (n.targets if isinstance(n, ast.Assign) else [n.target]):
+                        for x in ast.walk(t):
+                            if isinstance(x, ast.Attribute) and isinstance(x.ctx, ast.Store):
+                                names.add(x.attr)
+        if names:
+            for k in list(self.heap):
+                if k[0] == 'attr' and k[2] in names and k[1][0] != 'bvar':
+                    del self.heap[k]
+
     def stmt_for(self, s, fr):
         dom = self.ex(s.iter, fr)
         if s.orelse:
             raise Unknown('for-else')
         if is_literal_seq(dom):
             return self.unroll(s, dom, fr)
+        self.havoc_heap(s.body)
         lid = next(self.ids)
         pre = dict(fr.env)
         mods = self.modified_names(s.body)
@@ -773,6 +789,7 @@ class Interp:
         carried = [k for k in mods if k in pre and fr.defdepth.get(k, 0) <= fr.loopdepth]
         for k in carried:
             fr.env[k] = ('carried', k, wid)
+        self.havoc_heap(s.body)
         cond = self.ex(s.test, fr)
         fr.loopdepth += 1
         fr.loops.append(wid)
